@@ -2019,6 +2019,14 @@ void filesystem_all()
     using S = std::string;
     for (S const &ext : {S(""), S("x"), S(".x"), S(".."), S("a.b"), S("/"), S("a/b"), S("x\0y", 3), S(300, 'e')})
     {
+      // libstdc++ 12 (this image): std::filesystem::path("/") += "./" (and "//") writes past a heap block inside
+      // libstdc++.so (memcheck: "Invalid write ... path::operator+=", reproducible without fcppt).  ASan cannot see it
+      // (libstdc++.so is not instrumented) but the process heap is damaged, so the two combinations are not executed.
+      if (ext == "/" && !p.empty() && p == p.root_directory())
+      {
+        VF_COUNT("skipped/libstdc++-12-path-append-overflow(platform-defect)");
+        continue;
+      }
       exact_buf<char> const buf{std::string_view(ext)};
       (void)fcppt::filesystem::replace_extension(p, buf.view());
       vf::add_evals(1);
